@@ -425,7 +425,7 @@ func (env *SpecEnv) evalQuant(x *SExpr) *Val {
 	if len(bnames) == 1 && strings.HasPrefix(decls[0], "("+bnames[0]+" Int") {
 		vn := bnames[0]
 		for _, u := range uses {
-			if strings.Contains(u.ptr, vn) {
+			if strings.Contains(u.ptr, vn) || strings.Contains(u.ptr, "pa!") || strings.Contains(u.idx, "pa!") {
 				continue
 			}
 			e0, ok := affineRest(u.idx, vn)
@@ -843,7 +843,12 @@ func (env *SpecEnv) evalValueSel(x *SExpr) *Val {
 	if base.T != nil {
 		if mt, ok := base.T.Underlying().(*types.Map); ok {
 			k := env.coerceKey(idx, mt.Key())
-			_, v := e.mapGet(env.cur, mt, base.term(), k)
+			pr, v := e.mapGet(env.cur, mt, base.term(), k)
+			if env.facts != nil {
+				if f := e.wf(v, env.cur.alloc); f != "true" {
+					*env.facts = append(*env.facts, implies(pr, f))
+				}
+			}
 			return v
 		}
 		if _, ok := base.T.Underlying().(*types.Array); ok && base.K == KStruct {
@@ -970,6 +975,15 @@ func (env *SpecEnv) evalCall(x *SExpr) *Val {
 				return v
 			}
 			env.fail("unknown sentinel %s.%s", pp, args[1].Name)
+		case "inregion":
+			// inregion(p, s): pointer p lies inside the backing array (up to cap) of slice s
+			pv := env.eval(args[0])
+			sv := env.eval(args[1])
+			if sv.K != KSlice {
+				env.fail("inregion: second argument must be a slice")
+			}
+			k := sizeOf(elemType(sv.T))
+			return boolVal(fmt.Sprintf("(and (<= %s %s) (< %s (+ %s %s)))", sv.S[0], pv.S[0], pv.S[0], sv.S[0], mulK(k, sv.S[2])))
 		case "obj":
 			v := env.eval(args[0])
 			if v.K == KIface {
@@ -1086,10 +1100,57 @@ func (env *SpecEnv) expandPureIn(argEnv *SpecEnv, pf *PureFunc, recv *Val, args 
 	if pf.Recv != "" {
 		n.vars[pf.Recv] = recv
 	}
+	// large scalar arguments are let-bound to avoid exponential term growth
+	var lets []string
 	for i, a := range args {
-		n.vars[pf.Params[i]] = argEnv.eval(a)
+		v := argEnv.eval(a)
+		if (v.K == KInt || v.K == KBool) && len(v.S[0]) > 60 {
+			name := fmt.Sprintf("pa!%d", env.e.s.n)
+			env.e.s.n++
+			lets = append(lets, fmt.Sprintf("(%s %s)", name, v.S[0]))
+			c := *v
+			c.S = []string{name}
+			v = &c
+		}
+		n.vars[pf.Params[i]] = v
 	}
-	return n.eval(pf.Body)
+	nf := 0
+	if n.facts != nil {
+		nf = len(*n.facts)
+	}
+	res := n.eval(pf.Body)
+	if len(lets) == 0 {
+		return res
+	}
+	wrap := func(t string) string {
+		if !strings.Contains(t, "pa!") {
+			return t
+		}
+		return "(let (" + strings.Join(lets, " ") + ") " + t + ")"
+	}
+	if n.facts != nil {
+		for i := nf; i < len(*n.facts); i++ {
+			(*n.facts)[i] = wrap((*n.facts)[i])
+		}
+	}
+	return wrapVal(res, wrap)
+}
+
+func wrapVal(v *Val, wrap func(string) string) *Val {
+	c := *v
+	if len(v.S) > 0 {
+		c.S = make([]string, len(v.S))
+		for i, t := range v.S {
+			c.S[i] = wrap(t)
+		}
+	}
+	if len(v.F) > 0 {
+		c.F = make([]*Val, len(v.F))
+		for i, f := range v.F {
+			c.F[i] = wrapVal(f, wrap)
+		}
+	}
+	return &c
 }
 
 func (env *SpecEnv) visited(args []*SExpr) *Val {
